@@ -316,6 +316,15 @@ def main(run):
                 pars[an_] = rng.uniform(20, 70)
                 pars[an_ + "_pd"] = rng.uniform(5, 20); pars[an_ + "_pd_n"] = rng.choice([0, 1]); pars.pop(an_ + "_pd_type", None)
                 stats["one_point_jitter"] = stats.get("one_point_jitter", 0) + 1
+            # 2-D, magnetic: a magnetic SLD and a polarisation state, on oriented and un-oriented models alike (the
+            # magnetic parameters are call parameters of every interface; in 1-D they are ignored by all of them)
+            msld = [p.name for p in pt.call_parameters if p.type == "sld" and p.length == 1 and (p.name + "_M0") in [c.name for c in pt.call_parameters]]
+            if dim2 and msld and mult is None and rng.random() < 0.7:
+                m_ = rng.choice(msld)
+                pars[m_ + "_M0"] = rng.choice([-1, 1]) * rng.uniform(0.5, 4.0)
+                pars[m_ + "_mtheta"] = rng.uniform(10, 170); pars[m_ + "_mphi"] = rng.uniform(0, 180)
+                pars["up_frac_i"] = rng.uniform(0, 1); pars["up_frac_f"] = rng.uniform(0, 1); pars["up_theta"] = rng.uniform(0, 180)
+                stats["magnetic_2d"] = stats.get("magnetic_2d", 0) + 1
             sv_pars = {k: v for k, v in pars.items() if k != mult_info.control}
             desc = dict(model=name, pars=pars, multiplicity=mult, dim="2d" if dim2 else "1d")
             try:
